@@ -919,7 +919,7 @@ def report(ctx, scn, c, r, line, topic="T"):
             drift = " [ListPeers differs from the expected interest view on nodes %s]" % r["drift"] if r["drift"] else ""
             vlib.add_violation(ctx, pred, sig,
                                "%s of message %s%s (published by node %s %s) at node %s subscription %s: delivered %d time(s); kinds=%s edges=%s live=%s relays=%s%s%s" % (
-                                   kind, d["m"], "" if topic == "T" else " on the second topic", p, kinds[p - 1] if p else "?", d["n"], d["s"], d["c"], kinds,
+                                   kind, d["m"], "" if topic == "T" else (" on the unrelated second topic U" if topic == "U" else " on the additional measured topic %s" % topic), p, kinds[p - 1] if p else "?", d["n"], d["s"], d["c"], kinds,
                                    line["edges"], c["live"], c["irelays"], (" uroles=%s" % scn["uroles"]) if scn.get("uroles") else "", drift),
                                {"scenario": {k: scn[k] for k in ("n", "kinds", "roles", "edges", "ops", "params", "uroles", "late_roles", "queue", "bulk", "clones") if k in scn},
                                 "check_line": {k: v for k, v in line.items() if k not in ("log", "pubs", "deliv")} if line.get("stream") else
